@@ -14,7 +14,14 @@ var contentChars = []string{"a", "b", "SP", "(", ")", ";", ",", "[", "]", "BS", 
 	"%", ":", "+", "=", "<", "&", "|", "*", "/", ".", "_", "n", "t", "0"}
 var plainChars = []string{"a", "b", "SP", "(", ")", ";", ",", "[", "Eacute", "1"}
 
+// words the engine uses itself (the end-if marker, keywords, constants, operator names, directive words): as the
+// content of a literal they are just text
+var reservedWords = []string{"fi", "if", "DNE", "true", "false", "and", "or", "not", "eq", "nil", "K", "optimize", "in"}
+
 func randContent(r *rand.Rand, special bool) string {
+	if r.Intn(9) == 0 {
+		return reservedWords[r.Intn(len(reservedWords))]
+	}
 	n := r.Intn(5)
 	m := make([]string, n)
 	for i := range m {
